@@ -28,7 +28,7 @@ impl Prop for C02 {
     fn budget(tier: Tier) -> Budget {
         match tier {
             Tier::Quick => Budget { cases: 6000, shards: 16 },
-            Tier::Thorough => Budget { cases: 48000, shards: 16 },
+            Tier::Thorough => Budget { cases: 240000, shards: 16 },
         }
     }
 
